@@ -786,10 +786,8 @@ class Engine:
             except PyExc as e:
                 # a python exception raised while evaluating contract text / ghost code (outside the function body proper)
                 raise Unsupported('python {} while evaluating the contract at line {}'.format(e.name, e.line))
-            except VacuousContract as e:
-                if os.environ.get('PYVC_STRICT'):
-                    raise
-                raise Unsupported(str(e))
+            except VacuousContract:
+                raise               # an inconsistent contract is a checker error, never a verdict and never silently degraded
             except (Unsupported, SpecError, ReturnSig, BreakSig, ContinueSig):
                 raise
             except (TypeError, AttributeError, IndexError, ValueError, KeyError, z3.Z3Exception) as e:
